@@ -24,7 +24,7 @@ ANCHORS = [
     ("buidl/tx.py", "Tx.serialize"), ("buidl/tx.py", "Tx.serialize_legacy"), ("buidl/tx.py", "Tx.serialize_segwit"),
     ("buidl/tx.py", "Tx.serialize_witness"), ("buidl/tx.py", "Tx.hash"), ("buidl/tx.py", "Tx.id"),
     ("buidl/tx.py", "TxIn.parse"), ("buidl/tx.py", "TxIn.serialize"), ("buidl/tx.py", "TxOut.parse"),
-    ("buidl/tx.py", "TxOut.serialize"), ("buidl/tx.py", "TxFetcher.fetch"),
+    ("buidl/tx.py", "TxOut.serialize"), ("buidl/tx.py", "TxFetcher.fetch"), ("buidl/tx.py", "TxFetcher.get_url"),
     ("buidl/script.py", "Script.parse"), ("buidl/script.py", "Script.raw_serialize"), ("buidl/script.py", "Script.serialize"),
     ("buidl/script.py", "ScriptPubKey.parse"), ("buidl/script.py", "Script.is_p2pkh"), ("buidl/script.py", "Script.is_p2sh"),
     ("buidl/script.py", "Script.is_p2wpkh"), ("buidl/script.py", "Script.is_p2wsh"), ("buidl/script.py", "Script.is_p2tr"),
@@ -39,7 +39,9 @@ RULE = ("transactions are built through /repo's API from plain-data descriptions
         "amounts and widths at their boundaries, witness items of 0,1,252,253,65535,65536,70000 bytes); byte streams are the "
         "61 transactions of buidl/test/tx.cache, the hex vectors of test_tx.py, serialisations of the built transactions, "
         "every truncation and sampled single-byte corruptions of small ones; fetcher responses: canonical, upper-case, "
-        "white space, non-minimal push, trailing bytes, another transaction, non-hex.  A case is non-trivial when its input "
+        "white space, non-minimal push, trailing bytes, another transaction, non-hex; histories of 2..6 fetch calls on one "
+        "class-level cache (emptied between histories) mixing those servers, same and different ids, fresh True/False, "
+        "with the cache contents compared after every call.  A case is non-trivial when its input "
         "is not empty; distinct = distinct (operation, input) pairs")
 CLAUSES = {
     "script parse(raw_serialize(c)) = canon c for pushes 0..520 and opcodes outside 1..78 (N04c: the empty push is OP_0)":
@@ -51,6 +53,8 @@ CLAUSES = {
     "txid unchanged by any change to witness data": "proved (txid_witness_invariant)",
     "txid changed by any change to non-witness data": "proved relative to hash256 (txid_collision_extraction, serializeLegacy_injective)",
     "fetcher: a returned transaction hashes to the requested id, whatever the response": "proved (fetch_sound) for the repaired code (F04b)",
+    "… after any history of fetch calls on the shared class-level cache (fresh or not, any response sequence)":
+        "proved (fetch_history_sound, fetch_cache_invariant, fetch_failure_leaves_cache) over the state machine fetchStep / fetchRun",
     "legacy form needs ≥ 1 input (N04d: zero-input legacy bytes are a segwit marker)": "proved (zero_input_legacy_ambiguous)",
     "malformed streams (truncated, garbled, out-of-range fields)": "correspondence-only (model = code on every generated stream); tx_parse_short proved",
 }
@@ -92,6 +96,44 @@ def _fetch(net, txid, response):
         TX.urlopen = saved_urlopen
         TX.TxFetcher.cache.clear()
         TX.TxFetcher.cache.update(saved_cache)
+
+
+def run_fetch_history(calls):
+    """2..6 calls of TxFetcher.fetch on ONE class-level cache (emptied first, restored afterwards), urlopen stubbed
+    to answer each call with that call's response.  Returns per call (answer tokens | REJECT, returned id | None,
+    cache dump after the call)."""
+    import buidl.tx as TX
+
+    saved_urlopen, saved_cache = TX.urlopen, dict(TX.TxFetcher.cache)
+    TX.TxFetcher.cache.clear()
+    current = {}
+    TX.urlopen = lambda req: _Resp(current["response"].encode("utf-8"))
+    out = []
+    try:
+        for net, txid, resp, fresh in calls:
+            current["response"] = resp
+            try:
+                tx = TX.TxFetcher.fetch(txid, network=net, fresh=fresh)
+                ans, rid = T.f_tx(tx), tx.id()
+            except Exception:
+                ans, rid = REJECT, None
+            cache = sorted(TX.TxFetcher.cache.items())
+            dump = " ".join([str(len(cache))] + [f"{xs(k)} {T.f_tx(v)}" for k, v in cache])
+            out.append((ans, rid, dump))
+    finally:
+        TX.urlopen = saved_urlopen
+        TX.TxFetcher.cache.clear()
+        TX.TxFetcher.cache.update(saved_cache)
+    return out
+
+
+def hist_calls(t):
+    n = int(t[1])
+    return [(uns(t[2 + 4 * k]), uns(t[3 + 4 * k]), uns(t[4 + 4 * k]), t[5 + 4 * k] == "1") for k in range(n)]
+
+
+def fetch_hist_line(calls):
+    return " ".join(["fetch_hist", str(len(calls))] + [f"{xs(n)} {xs(i)} {xs(r)} {'1' if f else '0'}" for n, i, r, f in calls])
 
 
 # --------------------------------------------------------------------------------- implementation side
@@ -145,6 +187,8 @@ def _impl(t):
         return xs(tx.id())
     if op == "fetch":
         return T.f_tx(_fetch(uns(t[1]), uns(t[2]), uns(t[3])))
+    if op == "fetch_hist":
+        return " | ".join(f"{a} ; {c}" for a, _, c in run_fetch_history(hist_calls(t)))
     raise UnknownOp(op)
 
 
@@ -222,6 +266,8 @@ def p_txid(c):
     leg = tx.serialize_legacy()
     want = hashlib.sha256(hashlib.sha256(leg).digest()).digest()[::-1]
     h0 = tx.hash()
+    if tx.hash() != h0 or tx.serialize_legacy() != leg:      # the same object, asked twice
+        return False, xb(tx.hash()), xb(h0) + " (second call on the same object)"
     if h0 != want or tx.id() != want.hex():
         return False, [xb(h0), tx.id()], [xb(want), want.hex()]
     # witness changes
@@ -268,6 +314,16 @@ def p_fetch(c):
     return tx.id() == c["txid"], tx.id(), c["txid"]
 
 
+def p_fetch_history(c):
+    """after ANY history of fetch calls on the shared cache: whatever a call returns has the id that call requested"""
+    t = c["hist"].split(" ")
+    calls = hist_calls(t)
+    for k, ((net, txid, resp, fresh), (ans, rid, _)) in enumerate(zip(calls, run_fetch_history(calls))):
+        if ans != REJECT and rid != txid:
+            return False, f"call #{k} (fresh={fresh}) for {txid} returned a transaction with id {rid}", "REJECT or a transaction with the requested id"
+    return True, "ok", "ok"
+
+
 def p_parse_serialize(c):
     """bytes that are the serialisation of a transaction built through the API (canonical by construction)
     re-serialise to themselves"""
@@ -278,7 +334,7 @@ def p_parse_serialize(c):
 
 
 PREDICATES = {"tx_roundtrip": p_tx_roundtrip, "script_roundtrip": p_script_roundtrip, "witness_roundtrip": p_witness_roundtrip,
-              "txid": p_txid, "fetch_sound": p_fetch, "parse_serialize": p_parse_serialize}
+              "txid": p_txid, "fetch_sound": p_fetch, "parse_serialize": p_parse_serialize, "fetch_history": p_fetch_history}
 
 
 def eval_pred(kind, case):
@@ -539,6 +595,66 @@ def run(ctx):
                     lines.append(("fetch:" + rname, f"fetch {xs(net)} {xs(req_id)} {xs(resp)}"))
                     preds.append(("fetch_sound", {"net": net, "txid": req_id, "response": resp, "why": rname}))
         lines.append(("fetch:upper_id", f"fetch {xs('mainnet')} {xs(txid.upper())} {xs(hexs)}"))
+
+    # ---- fetcher histories: 2..6 calls on one cache, mixing honest and lying servers, same / different ids, fresh or not
+    pool = []
+    for name, raw in sample:
+        if len(raw) > 1500:
+            continue
+        try:
+            with contextlib.redirect_stdout(io.StringIO()):
+                obj = TX.Tx.parse(io.BytesIO(raw))
+                if obj.serialize() != raw:
+                    continue
+                pool.append((obj.id(), raw))
+        except Exception:
+            continue
+
+    def server(kind, txid, raw):
+        if kind == "honest":
+            return raw.hex()
+        if kind == "honest_ws":
+            return " " + raw.hex().upper() + "\n"
+        if kind == "other":
+            return rng.choice([r for i, r in pool if i != txid] or [raw]).hex()
+        if kind == "tampered":      # well-formed, one locktime / amount byte changed: another id
+            b = bytearray(raw)
+            b[-1] ^= 1
+            return bytes(b).hex()
+        if kind == "trailing":
+            return raw.hex() + "00"
+        if kind == "non_minimal":
+            nm = non_minimal(raw)
+            return (nm or raw + b"\x00").hex()
+        if kind == "non_hex":
+            return "<html>503</html>"
+        return ""
+
+    kinds = ["honest", "honest", "honest_ws", "other", "tampered", "tampered", "trailing", "non_minimal", "non_hex", "empty"]
+    hists = []
+    for _ in range(ctx.n(1000)):
+        ids = rng.sample(pool, min(len(pool), rng.choice([1, 1, 2, 3])))
+        calls = []
+        for _ in range(rng.randrange(2, 7)):
+            txid, raw = rng.choice(ids)
+            calls.append((rng.choice(["mainnet", "mainnet", "mainnet", "testnet", "signet", "regtest"]), txid,
+                          server(rng.choice(kinds), txid, raw), rng.random() < 0.3))
+        hists.append(calls)
+    # the shapes that matter, always present: refuse then retry from the cache; honest then lying with and without fresh
+    if pool:
+        (i0, r0) = pool[0]
+        for first in ("other", "tampered", "trailing", "non_minimal"):
+            for f1 in (False, True):
+                hists.append([("mainnet", i0, server(first, i0, r0), f1), ("mainnet", i0, server("non_hex", i0, r0), False),
+                              ("mainnet", i0, server("honest", i0, r0), False), ("regtest", i0, server("other", i0, r0), False),
+                              ("mainnet", i0, server("tampered", i0, r0), True), ("mainnet", i0, server("empty", i0, r0), False)])
+    for calls in hists:
+        rec.count("fetch_hist:calls", len(calls))
+        rec.count("fetch_hist:fresh", sum(1 for c in calls if c[3]))
+        rec.count("fetch_hist:repeated-id", len(calls) - len({c[1] for c in calls}))
+        line = fetch_hist_line(calls)
+        lines.append(("fetch_hist", line))
+        preds.append(("fetch_history", {"hist": line}))
 
     # ---- known finding F04b (fixed): a legacy response with a trailing byte, requested under hash256(response)
     wit = f04b_witness()
